@@ -11,6 +11,7 @@ package main
 // case - and that guard is re-checked on the encoder.
 
 import (
+	"fmt"
 	"go/token"
 	"strings"
 
@@ -190,4 +191,87 @@ func ruleP10(p *Prog, r *Report) {
 		}
 	}
 	r.Floor(R, "zero-count rejections in decode scope", 1, n)
+}
+
+// P11 the shared compact-map entry has exactly one digest per key.
+//
+// Every inlined compact map that refers to a shared entry copies the entry's digests; its own
+// value count is checked against the number of keys. Only "as many digests as keys" ties the
+// copied amount to the size of the element itself (C19: memory in proportion to the input) - a
+// decoder that accepts more digests than keys lets a short register make every referring element
+// copy an arbitrarily long digest list. Decided by order abstraction: from the first comparison of
+// the decoded key count with the digest count, a success return is reachable exactly when they
+// are equal (values 0..2 realise every ordering).
+func ruleP11(p *Prog, r *Report) {
+	const R = "P11"
+	n := 0
+	scope, _ := p.decodeScope()
+	for _, f := range sortedFuncs(p, scope) {
+		res := f.Signature.Results()
+		if res.Len() == 0 || typeName(res.At(0).Type()) != "compactMapExtraData" {
+			continue
+		}
+		isKeyCount := func(v ssa.Value) bool {
+			ex, ok := canonConv(v).(*ssa.Extract)
+			if !ok || ex.Index != 0 {
+				return false
+			}
+			c, ok := ex.Tuple.(*ssa.Call)
+			return ok && calleeName(c) == "DecodeArrayHead"
+		}
+		isDigestCount := func(v ssa.Value) bool {
+			bo, ok := canonConv(v).(*ssa.BinOp)
+			if !ok || bo.Op != token.QUO {
+				return false
+			}
+			_, isLen := isLenOf(bo.X)
+			return isLen
+		}
+		var start *ssa.BasicBlock
+		for _, b := range f.Blocks {
+			ifi, ok := b.Instrs[len(b.Instrs)-1].(*ssa.If)
+			if !ok {
+				continue
+			}
+			bo, ok := ifi.Cond.(*ssa.BinOp)
+			if !ok {
+				continue
+			}
+			if (isKeyCount(bo.X) && isDigestCount(bo.Y)) || (isKeyCount(bo.Y) && isDigestCount(bo.X)) {
+				if start == nil || b.Dominates(start) {
+					start = b
+				}
+			}
+		}
+		n++
+		cons := "digests-equal-keys:" + p.Name(f)
+		if start == nil {
+			r.Bad(R, cons, p.Pos(f.Pos()), "the decoder of the shared compact-map entry never compares the number of keys with the number of digests")
+			continue
+		}
+		bad := ""
+		for k := 0; k < 3 && bad == ""; k++ {
+			for d := 0; d < 3 && bad == ""; d++ {
+				val := func(v ssa.Value) (int, bool) {
+					switch {
+					case isKeyCount(v):
+						return k, true
+					case isDigestCount(v):
+						return d, true
+					}
+					return 0, false
+				}
+				succ, _ := orderReachFrom(start, val)
+				if k == d && !succ {
+					bad = fmt.Sprintf("%d keys with %d digests are rejected", k, d)
+				}
+				if k != d && succ {
+					bad = fmt.Sprintf("%d keys with %d digests are accepted", k, d)
+				}
+			}
+		}
+		r.Decide(bad == "", R, cons, p.InstrPos(start.Instrs[len(start.Instrs)-1]), "the entry is accepted exactly when it has as many digests as keys",
+			"the shared compact-map entry is not required to have exactly one digest per key: "+bad+"; every inlined element that refers to the entry copies all its digests while only its value count is checked against the keys, so a short register can make the decoder allocate (elements x digests)")
+	}
+	r.Floor(R, "decoders of shared compact-map entries", 1, n)
 }
